@@ -107,6 +107,12 @@ class Report:
         }
         self.assumptions = []
         self.notes = []
+        # replay files of an earlier run of this check are stale
+        vdir = os.path.join(OUT, "violations")
+        if os.path.isdir(vdir):
+            for fn in os.listdir(vdir):
+                if fn.startswith(prop + "-"):
+                    os.remove(os.path.join(vdir, fn))
 
     def add_tlc(self, stats: dict):
         self.cov["states"] += int(stats.get("distinct", 0))
